@@ -121,6 +121,8 @@ def cases(tier, inst):
     for n in (1, 2, 3):
         for combo in itertools.product([c for c in INT_INNER[:6] if isinstance(c, tuple)] + [2], repeat=n):
             yield (("lst",) + combo, "lvalue", True)
+            # wave 9 (C17-agent9): the same with inner collections that are iterable and nothing else (no list / tuple / set)
+            yield (("itr",) + combo, "lvalue", True)
     yield from object_cases(tier, inst)
 
 
@@ -260,11 +262,12 @@ def run_list(case, inst):
     inner = combo[1:]
 
     def body():
-        wspec = (("P", "Item", tuple((("p", i + 1), ("items", ("list!",) + c if isinstance(c, tuple) else c))
+        wspec = (("P", "Item", tuple((("p", i + 1), ("items", (("list!",) if combo[0] == "lst" else ("iter!",)) + c if isinstance(c, tuple) else c))
                                      for i, c in enumerate(inner))),)
         world = build_world(wspec, inst)
-        before = [(o.items, list(o.items)) if isinstance(o.items, list) else (o.items, None) for o in world["P"]]
-        combined = [e for o in world["P"] for e in (o.items if isinstance(o.items, list) else [o.items])]
+        from ..worlds import IterOnly
+        before = [(o.items, list(o.items)) if isinstance(o.items, (list, IterOnly)) else (o.items, None) for o in world["P"]]
+        combined = [e for o in world["P"] for e in (o.items if isinstance(o.items, (list, IterOnly)) else [o.items])]
         q = ("Q", "an", "entity", CC, (), (VX,))
         out = []
         try:
